@@ -600,6 +600,10 @@ def floorflush(ctx: Any) -> List[Ob]:
         return refresh_obligations(ctx, R)  # reports the missing floor as a violation
     fc = floor_calls[0]
     obs.extend(refresh_obligations(ctx, R))
+    # ... and the refresh itself stores the received lifetime whatever the two lifetimes are (shared with C05.OWN / C10.CONST)
+    from .c05 import reset_ttl_obligations
+
+    obs.extend(reset_ttl_obligations(ctx, R))
     okv, v = prog.try_fold(f.module, fc.args[1]) if len(fc.args) == 2 else (False, None)
     obs.append(ob(R, f, fc, 'the floor sets exactly 1125 s and keeps the creation time', okv and v == 1125 and isinstance(fc.args[0], ast.Attribute) and fc.args[0].attr == 'created', f'ttl arg folds to {v}'))
     cfg = cfg_of(f.node)
